@@ -3,6 +3,7 @@ import gen
 import progcases
 
 N = {"quick": 700, "thorough": 20000}
+LEAN_MODULE = "Pyab.Properties.C02_full"
 
 
 def make_cases(ctx, n):
